@@ -1,5 +1,5 @@
 """C02 - each connection gets exactly one UP, then messages, then exactly one DOWN; clean destruction"""
-from .. import conn_oracle
+from .. import conn_oracle, server_free
 from ..conn_common import ConnProp
 from ._conn_texts import ASSUME, TRUSTED
 
@@ -20,13 +20,30 @@ class Prop(ConnProp):
                   "implementation's own callback trace")
     level_note = ("Single loop: the cross-loop hop of TcpServer::removeConnection is collapsed; callback thread affinity is by "
                   "construction of the model and observed (thread ids) in the harness. TcpClient-side ownership (disconnect/stop/"
-                  "destruction of the client) is decided under C12's engine (client_drv), incl. the repaired F26.")
+                  "destruction of the client) is decided under C12's engine (client_drv), incl. the repaired F26. "
+                  "TcpServer's side (connection map and names, removeConnection's hop io loop -> base loop -> io loop, ~TcpServer with "
+                  "live connections, io-thread assignment) is exercised only by free-running scenarios around the real TcpServer "
+                  "(N = 0..3 io threads, raw-socket peers, oracle on the recorded trace only: UP MSG* DOWN once each on the "
+                  "connection's loop thread, distinct names, round-robin assignment, every connection object and descriptor gone) - "
+                  "supporting evidence and failing-input search, not proof.")
     rule = ("histories of <= 40 operations on one connection mixing every close cause with sends, reads, scripted faults and "
-            "operations inside callbacks; asserts-on/NDEBUG x epoll/poll; non-trivial = at least one callback ran")
+            "operations inside callbacks; asserts-on/NDEBUG x epoll/poll; non-trivial = at least one callback ran. Plus "
+            "free-running TcpServer scenarios (vlib/server_free.py: N in 0..3 io threads, 127.0.0.1 / ::1 / a long v4-mapped IPv6 "
+            "listen address, kernel-chosen port, epoll/poll, 1..12 concurrent raw-socket peers ending by peer FIN, peer RST, "
+            "shutdown(), forceClose(), forceCloseWithDelay() or destruction of the TcpServer with connections up, new "
+            "connections accepted while old ones close), oracle only")
     trusted_base = TRUSTED
     assumptions = ASSUME
     oracles = [conn_oracle.updown_oracle]
     profile = {"closes": True}
+
+    def correspondence(self, ctx, replay=None):
+        # a replay whose first line is `engine=server ...` is a free-running TcpServer scenario
+        if replay and server_free.is_server_replay(replay):
+            return server_free.replay(ctx, self.id, replay)
+        ConnProp.correspondence(self, ctx, replay)
+        if not replay and not ctx.stop():
+            server_free.explore(ctx, self.id)
 
 
 PROP = Prop()
